@@ -136,6 +136,15 @@ class Gen(object):
         pub = [{"name": "Cryptographic Usage Mask", "v": self.r.choice([["VERIFY"], []])}]
         if self.r.random() < 0.4:
             priv.append({"name": "Name", "idx": 0, "v": self.r.choice(NAMES)})
+        k = self.r.random()
+        if k < 0.12:      # private template rejected after the public key was set up
+            priv += [{"name": "Name", "idx": 1, "v": "dup"}, {"name": "Name", "idx": 2, "v": "dup"}]
+        elif k < 0.2:
+            pub += [{"name": "Name", "idx": 0, "v": "dup"}, {"name": "Name", "idx": 1, "v": "dup"}]
+        elif k < 0.25:
+            priv.append({"name": "Contact Information", "v": "me"})
+        elif k < 0.3:
+            priv.append({"name": "Cryptographic Length", "v": 2048})
         if self.r.random() < 0.3:
             common.append({"name": "Operation Policy Name", "v": self.r.choice(self.policy_names)})
         return ("CreateKeyPair", {"common": common, "priv": priv, "pub": pub})
